@@ -615,3 +615,67 @@ func (p *Position) vxFreeBitboards(tag string, s *VxState, local *VxState) {
 		p.kingSquare[c] = k
 	}
 }
+
+// VxSpecAttackers: bitboard of the squares holding a piece of colour by that attacks sq.
+func (s *VxState) VxSpecAttackers(sq Square, by Color) Bitboard {
+	f, r := int(sq&7), int(sq>>3)
+	var res Bitboard
+	mark := func(ff, rr int, pc Piece) {
+		if vxOn(ff, rr) && s.Board[rr*8+ff] == pc {
+			res |= Bitboard(1) << uint(rr*8+ff)
+		}
+	}
+	pr := r - 1
+	if by == Black {
+		pr = r + 1
+	}
+	mark(f-1, pr, vxMake(by, Pawn))
+	mark(f+1, pr, vxMake(by, Pawn))
+	kn, kg := vxMake(by, Knight), vxMake(by, King)
+	dn := [8][2]int{{1, 2}, {2, 1}, {2, -1}, {1, -2}, {-1, -2}, {-2, -1}, {-2, 1}, {-1, 2}}
+	dk := [8][2]int{{0, 1}, {1, 1}, {1, 0}, {1, -1}, {0, -1}, {-1, -1}, {-1, 0}, {-1, 1}}
+	for i := 0; i < 8; i++ {
+		mark(f+dn[i][0], r+dn[i][1], kn)
+		mark(f+dk[i][0], r+dk[i][1], kg)
+	}
+	rk, bs, qn := vxMake(by, Rook), vxMake(by, Bishop), vxMake(by, Queen)
+	for d := 0; d < 8; d++ {
+		df, dr := dk[d][0], dk[d][1]
+		straight := df == 0 || dr == 0
+		for i := 1; i < 8; i++ {
+			ff, rr := f+i*df, r+i*dr
+			if !vxOn(ff, rr) {
+				break
+			}
+			pc := s.Board[rr*8+ff]
+			if pc != PieceNone {
+				if pc == qn || (straight && pc == rk) || (!straight && pc == bs) {
+					res |= Bitboard(1) << uint(rr*8+ff)
+				}
+				break
+			}
+		}
+	}
+	return res
+}
+
+// VxEpMarked: the engine's second en-passant convention (AttacksTo): on the en-passant target
+// square the pawn that can be captured is marked as well when a pawn of colour by stands next to it.
+func (s *VxState) VxEpMarked(sq Square, by Color) Bitboard {
+	if s.Ep == SqNone || s.Ep != sq {
+		return 0
+	}
+	v := int(s.Ep) - 8
+	if by == Black {
+		v = int(s.Ep) + 8
+	}
+	if v < 0 || v > 63 {
+		return 0
+	}
+	f, r := v&7, v>>3
+	att := vxMake(by, Pawn)
+	if s.at(f-1, r) == att || s.at(f+1, r) == att {
+		return Bitboard(1) << uint(v)
+	}
+	return 0
+}
